@@ -58,6 +58,21 @@ class WHook:
     def dists(self, d):
         return ["normal"] if d == "normal" else ["lognormal", "log-normal"]
 
+    def light(self, real, obj, sline, cv):
+        """cheap subset run after every single action on the history-carrying object (stale caches show here)"""
+        if self.na == 1:
+            return
+        inst = real.inst
+        w = sline["w"]
+        with warnings.catch_warnings():
+            warnings.simplefilter("ignore")
+            if w["ok"]:
+                self.call(f"mean_fn_frequency[{inst.dist_f}]", lambda: obj.mean_fn_frequency(inst.dist_f), inst.f_mean(rat(w["mf"])), sline, cv, inst)
+                self.call(f"std_fn_frequency[{inst.dist_f}]", lambda: obj.std_fn_frequency(inst.dist_f), inst.f_std(rat(w["vf"])), sline, cv, inst)
+            if w["okc"]:
+                self.call(f"mean_curve[{inst.dist_a}]", lambda: obj.mean_curve(inst.dist_a), [inst.a_mean(rat(m)) for m in w["mc"]], sline, cv, inst)
+                self.call(f"std_curve[{inst.dist_a}]", lambda: obj.std_curve(inst.dist_a), [inst.a_std(rat(v)) for v in w["vc"]], sline, cv, inst)
+
     def __call__(self, real, obj, sline, cv):
         inst = real.inst
         w = sline["w"]
@@ -142,7 +157,7 @@ def main():
     hook = WHook(run, hvsrpy, 2)
     insts = (("N", "N"), ("L", "L")) if quick else (("N", "N"), ("L", "L"), ("N", "L"), ("L", "N"))
     for fenc, aenc in insts:
-        rp.replay(hvsrobj.Instance(6, fenc, aenc), state_hook=hook)
+        rp.replay(hvsrobj.Instance(6, fenc, aenc), state_hook=hook, step_hook=hook.light)
     rp.validate_pending()
     run.notes["replay_NA2"] = rp.stats
 
